@@ -476,7 +476,7 @@ func (db *DB) getActiveFileWriteOff() (off int64, err error) {
 			db.ActiveFile.ActualSize = off
 
 		} else {
-			if err == io.EOF {
+			if err == io.EOF || isTornRecordErr(err) {
 				break
 			}
 
@@ -545,7 +545,7 @@ func (db *DB) parseDataFiles(dataFileIds []int) (unconfirmedRecords []*Record, c
 				off += entry.Size()
 
 			} else {
-				if err == io.EOF {
+				if err == io.EOF || isTornRecordErr(err) {
 					break
 				}
 
@@ -832,6 +832,14 @@ func (db *DB) buildListIdx(bucket string, r *Record) error {
 	}
 
 	return nil
+}
+
+// isTornRecordErr reports whether a record could not be read because it is
+// incomplete: the process died (or a write failed) while it was being appended,
+// so the bytes at the tail of the log do not form a record. Such a tail ends the
+// log of that file; it must not make the database unopenable.
+func isTornRecordErr(err error) bool {
+	return err == ErrCrc || err == ErrIndexOutOfBound || err == io.ErrUnexpectedEOF
 }
 
 // ErrWhenBuildListIdx returns err when build listIdx
